@@ -193,6 +193,34 @@ def flow_cross(n, eng, fault_at, ta, tb):
     check(n, 'B', 'the end')
 
 
+def flow_lost_request(n, eng, fault_at, who, first, then):
+    """`who` starts an exchange whose request is LOST; meanwhile the other endpoint (which has seen nothing) runs a complete exchange of its own, which
+    `who` serves while its request is outstanding; then the retransmission of the lost request arrives and is processed"""
+    a, b = n.establish()
+    # a second CHILD_SA, so that something is left when one is deleted
+    r = n.acquire('A', sport=9100, dport=23)
+    n.pump('B', r)
+    other = 'B' if who == 'A' else 'A'
+    arm_fault(eng, n, fault_at, 8)
+    lost = _trigger(n, who, first); check(n, who, f'{first} trigger')
+    if lost is None:
+        return
+    req2 = _trigger(n, other, then); check(n, other, f'{then} trigger')
+    if req2 is not None:
+        pump(n, who, req2, f'{then} by {other} while the {first} request of {who} is lost')
+    ctl = n.a if who == 'A' else n.b
+    me = next((e for e in ctl.ike_sas if e.state.name.endswith('_REQ_SENT') and e.request is not None), None)
+    if me is None:
+        return
+    world.ENV.now = max(world.ENV.now, me.retransmit_at) + 1
+    with (n.A if who == 'A' else n.B):
+        again = me.check_retransmission_timer()
+    if again is not None:
+        pump(n, other, again, f'retransmitted {first} request of {who}')
+    check(n, 'A', 'the end')
+    check(n, 'B', 'the end')
+
+
 def flow_after_rekey(n, eng, fault_at, who='A', then='soft'):
     """IKE_SA rekey started by `who`; afterwards the OTHER endpoint is the first to use the new IKE_SA (its own CHILD_SA rekey / delete / ACQUIRE /
     liveness probe), then `who` does the same"""
@@ -261,6 +289,8 @@ FLOWS.update({f'after_rekey_{w}_{t}': (flow_after_rekey, {'who': w, 'then': t}, 
 MIXED = {'mode': 'tunnel'}
 FLOWS.update({'mixed_family_rekey_child': (flow_rekey_child, {'who': 'A'}, MIXED), 'mixed_family_del_child': (flow_del_child, {'who': 'B'}, MIXED),
               'mixed_family_del_ike': (flow_del_ike, {'who': 'A'}, MIXED)})
+FLOWS.update({f'lost_{f}_{w}_then_{t}': (flow_lost_request, {'who': w, 'first': f, 'then': t}, {})
+              for f in ('rekey_ike', 'soft', 'acquire') for w in 'AB' for t in ('hard', 'soft', 'acquire', 'rekey_ike')})
 FLOWS.update({f'cross_{ta}_{tb}': (flow_cross, {'ta': ta, 'tb': tb}, {}) for ta in CROSS for tb in CROSS})
 
 
